@@ -1080,4 +1080,119 @@ Section Sim.
         * destruct done; [exact H3|]. destruct H3 as [H3 H4]. split; [lia|]. destruct H4 as [H4 H5]. split; [lia | exact H5].
   Qed.
 
+  (* ---------- one iteration of the safe loop in partial mode, complete sequence in the input ---------- *)
+  Lemma safe_top_seq_part s tok r ll r1 lits o1 o2 r3 ml r4 rout rout1 :
+    partial = true ->
+    bytes (tok :: r) -> src_at srcm (ip s) (tok :: r) -> 0 <= ip s ->
+    ip s + Z.of_nat (length (tok :: r)) <= iend ->
+    read_len (tok / 16) r = Some (ll, r1) -> take (Z.to_nat ll) r1 = Some (lits, o1 :: o2 :: r3) ->
+    read_len (tok mod 16) r3 = Some (ml, r4) -> (6 <= length r4)%nat ->
+    out_at (vget (dm s)) (op s) rout -> Z.of_nat (length rout) <= op s - lowPrefix -> 0 <= op s -> op s <= oend ->
+    apply_seq rout (mkSeq lits (o1 + 256 * o2) (ml + 4)) = Some rout1 ->
+    is_cont_or_done (safe_top partial dict srcm iend oend lowPrefix rlow dictm dictSize s)
+      (part_post (op s) (ll + (ml + 4)) rout1
+         (fun s' => ip s' + Z.of_nat (length r4) = ip s + Z.of_nat (length (tok :: r)) /\
+                    src_at srcm (ip s') r4 /\ bytes r4)).
+  Proof.
+    intros Hp Hb Hs Hip Hie Hrl1 Htk Hrl2 Hr4 O Hlen Hop Hoe Happ.
+    unfold byte in *.
+    destruct (bytes_cons _ _ Hb) as [Htok Hbr].
+    destruct (src_at_cons _ _ _ _ Hs) as [Htokm Hsr].
+    destruct (nibbles tok Htok) as [Hn1 Hn2].
+    cbn [length] in Hie.
+    destruct (read_len_suffix _ _ _ _ _ Hn1 Hrl1 Hbr Hsr) as (Hl1 & Hll & Hnoext & Hs1 & Hb1).
+    unfold byte in *.
+    set (p1 := ip s + 1 + (Z.of_nat (length r) - Z.of_nat (length r1))) in *.
+    destruct (take_spec _ _ _ _ Htk) as [Er1 Hlits]. unfold byte in *.
+    assert (Ell : ll = Z.of_nat (length lits)) by lia.
+    rewrite Er1 in Hs1, Hb1.
+    assert (Hlr1 : length r1 = (length lits + S (S (length r3)))%nat).
+    { rewrite Er1, app_length. reflexivity. }
+    destruct (bytes_app _ _ Hb1) as [_ Hb2].
+    destruct (bytes_cons _ _ Hb2) as [Ho1 Hb3]. destruct (bytes_cons _ _ Hb3) as [Ho2 Hb4].
+    unfold apply_seq in Happ. cbn [s_lits s_off s_mlen] in Happ.
+    destruct (off_ok (o1 + 256 * o2) && (4 <=? ml + 4)) eqn:Eok; [|discriminate].
+    assert (Hoff : 1 <= o1 + 256 * o2) by (unfold off_ok in Eok; lia).
+    destruct (src_at_app _ _ _ _ Hs1) as [Hsl Hs2].
+    destruct (src_at_cons _ _ _ _ Hs2) as [_ Hs3]. destruct (src_at_cons _ _ _ _ Hs3) as [_ Hs4].
+    destruct (read_len_suffix _ _ _ _ _ Hn2 Hrl2 Hb4 Hs4) as (Hl2 & Hml & Hnoext2 & Hs5 & Hb5).
+    assert (Hcm : copy_match (rev lits ++ rout) (Z.to_nat (o1 + 256 * o2)) (Z.to_nat (ml + 4)) = Some rout1) by exact Happ.
+    assert (Hoffle : o1 + 256 * o2 <= Z.of_nat (length lits) + Z.of_nat (length rout)).
+    { replace (Z.to_nat (ml + 4)) with (S (Z.to_nat (ml + 3))) in Hcm by lia.
+      apply copy_match_off in Hcm. rewrite app_length, rev_length in Hcm. unfold byte in *. lia. }
+    unfold safe_top. cbv zeta. rewrite Htokm.
+    destruct (negb (tok / 16 =? RUN_MASK) && ((ip s + 1 <? shortiend iend) && (op s <=? shortoend oend))) eqn:Esc; cbv beta iota.
+    - (* two-stage shortcut *)
+      assert (Hlt15 : tok / 16 < 15) by fin.
+      destruct (Hnoext Hlt15) as [Ell' Er].
+      assert (Ep1 : p1 = ip s + 1) by (unfold p1; rewrite Er; lia).
+      rewrite Er in Hlr1.
+      clearbody p1. subst p1.
+      replace (tok / 16) with (Z.of_nat (length lits)) by lia.
+      rewrite (readLE16_src _ _ _ _ Hs2).
+      set (m1 := blit srcm (ip s + 1) (dm s) (op s) 16).
+      assert (O1 : out_at (vget m1) (op s + Z.of_nat (length lits)) (rev lits ++ rout)).
+      { apply lits_out_v with (m := dm s); try assumption.
+        - apply blit_same_below.
+        - apply blit_lits; [exact Hsl | lia]. }
+      destruct (negb (tok mod 16 =? ML_MASK) && (o1 + 256 * o2 >=? 8) &&
+                (is_prefix64k dict || (op s + Z.of_nat (length lits) - (o1 + 256 * o2) >=? lowPrefix))) eqn:E18; cbv beta iota.
+      + (* 18-byte match copy: always complete (op <= oend - 32) *)
+        assert (Hlt15' : tok mod 16 < 15) by fin.
+        destruct (Hnoext2 Hlt15') as [Eml Er4].
+        cbn [is_cont_or_done]. unfold part_post. cbn [ip op dm].
+        destruct (copy18_lz m1 (op s + Z.of_nat (length lits)) (o1 + 256 * o2)) as [S R]; [lia|].
+        set (m2 := copy18 m1 (op s + Z.of_nat (length lits)) (op s + Z.of_nat (length lits) - (o1 + 256 * o2))) in *.
+        assert (Hfit : ll + (ml + 4) <= oend - op s) by fin.
+        replace (Z.min (ll + (ml + 4)) (oend - op s)) with (ll + (ml + 4)) by lia.
+        replace (Z.to_nat (ll + (ml + 4) - (ll + (ml + 4)))) with 0%nat by lia. cbn [skipn].
+        split; [fin|]. split.
+        * replace (op s + Z.of_nat (length lits) + tok mod 16 + MINMATCH) with (op s + Z.of_nat (length lits) + Z.of_nat (Z.to_nat (ml + 4))) by fin.
+          apply copy_match_out with (rout := rev lits ++ rout) (off := Z.to_nat (o1 + 256 * o2)).
+          -- lia.
+          -- exact Hcm.
+          -- eapply out_at_v_same_below; eauto.
+          -- replace (Z.of_nat (Z.to_nat (o1 + 256 * o2))) with (o1 + 256 * o2) by lia.
+             apply lzrec_v; [|lia|lia].
+             eapply lzrec_weaken; [exact R | lia | fin].
+        * split; [reflexivity|]. rewrite Er4 in *. split; [cbn [length]; lia|]. split; [|exact Hb5].
+          replace (ip s + 1 + Z.of_nat (length lits) + 2) with (ip s + 1 + Z.of_nat (length lits) + 1 + 1 + (Z.of_nat (length r3) - Z.of_nat (length r3))) by lia. exact Hs5.
+      + (* general match path, possibly cut *)
+        eapply is_cod_mono.
+        * apply (after_lits_part (ip s + 1 + Z.of_nat (length lits)) (op s + Z.of_nat (length lits)) m1) with (r3 := r3) (r4 := r4) (ml := ml) (rout0 := rev lits ++ rout) (rout1 := rout1); unfold byte in *; try assumption; try fin.
+          -- cbn [length]. lia.
+          -- rewrite app_length, rev_length. lia.
+        * unfold part_post. unfold byte in *. intros done s' (H1 & H2 & H3).
+          assert (Hfar : op s + ll <= oend - 18) by fin.
+          replace (Z.min (ll + (ml + 4)) (oend - op s)) with (ll + Z.min (ml + 4) (oend - (op s + ll))) by lia.
+          rewrite <- Ell in *.
+          split; [lia|]. split.
+          -- replace (ll + (ml + 4) - (ll + Z.min (ml + 4) (oend - (op s + ll)))) with (ml + 4 - Z.min (ml + 4) (oend - (op s + ll))) by lia.
+             exact H2.
+          -- destruct done; [exact H3|]. destruct H3 as [H3 [H4 H5]]. split; [lia|]. cbn [length]. split; [lia|]. split; assumption.
+    - destruct (tok / 16 =? RUN_MASK) eqn:E15; cbv beta iota.
+      + unfold read_len in Hrl1. assert (E15' : (tok / 16 =? 15) = true) by fin. rewrite E15' in Hrl1.
+        destruct (rvl_sim r ll r1 (ip s + 1) (iend - RUN_MASK) true (ok s && rd_src iend (ip s) 1) Hrl1 Hsr) as (_ & _ & kf' & Hr); [fin | fin | fin |].
+        rewrite Hr. cbv beta iota. fold p1.
+        replace (tok / 16 + (ll - 15)) with (Z.of_nat (length lits)) by fin.
+        eapply is_cod_mono.
+        * apply (safe_lit_part (mkD p1 (op s) (dm s) kf') tok lits o1 o2 r3 ml r4 rout rout1); cbn [ip op dm]; unfold byte in *; try assumption; try lia.
+          rewrite app_length. cbn [length]. lia.
+        * unfold part_post. cbn [ip op dm]. unfold byte in *. intros done s' (H1 & H2 & H3). rewrite <- Ell in *.
+          split; [exact H1|]. split; [exact H2|].
+          destruct done; [exact H3|]. destruct H3 as [H3 [H4 H5]]. split; [exact H3|]. cbn [length]. split; [lia|]. split; assumption.
+      + assert (Hlt15 : tok / 16 < 15) by fin.
+        destruct (Hnoext Hlt15) as [Ell' Er].
+        assert (Ep1 : p1 = ip s + 1) by (unfold p1; rewrite Er; lia).
+        rewrite Er in Hlr1.
+        clearbody p1. subst p1.
+        replace (tok / 16) with (Z.of_nat (length lits)) by lia.
+        eapply is_cod_mono.
+        * apply (safe_lit_part (mkD (ip s + 1) (op s) (dm s) (ok s && rd_src iend (ip s) 1)) tok lits o1 o2 r3 ml r4 rout rout1); cbn [ip op dm]; unfold byte in *; try assumption; try lia.
+          rewrite app_length. cbn [length]. lia.
+        * unfold part_post. cbn [ip op dm]. unfold byte in *. intros done s' (H1 & H2 & H3). rewrite <- Ell in *.
+          split; [exact H1|]. split; [exact H2|].
+          destruct done; [exact H3|]. destruct H3 as [H3 [H4 H5]]. split; [exact H3|]. cbn [length]. split; [lia|]. split; assumption.
+  Qed.
+
 End Sim.
